@@ -132,7 +132,7 @@ let class_of = function
 
 let dummy_copier = { c_root = Node (BinNums.Z0, Datatypes.O, Datatypes.O, false, []); c_defaults = new_options }
 
-let run pinned =
+let run ?(nozs=false) pinned =
   iter_lines (fun line ->
     let out =
       try
@@ -156,7 +156,7 @@ let run pinned =
             match cop with
             | None -> Buffer.add_string b "skip -"
             | Some c ->
-              let (p, stt) = run_call c st dt k in
+              let (p, stt) = (if nozs then run_call_nozeroskip else run_call) c st dt k in
               (match stt with
                | SPanic -> Buffer.add_string b "panic -"
                | _ ->
@@ -171,4 +171,6 @@ let run pinned =
 
 let () =
   Registry.register "copier" (fun _ -> run false);
-  Registry.register "copier-pinned" (fun _ -> run true)
+  Registry.register "copier-pinned" (fun _ -> run true);
+  (* the repaired variant without the zero-skip: only used to tolerate a repair of the known finding C20:copy:zero-skip *)
+  Registry.register "copier-nozs" (fun _ -> run ~nozs:true false)
